@@ -13,7 +13,7 @@ RULE = ("in-process: scripting::expand_args on every C01-style command (all argu
         "helper records, created files and exit status (the interactive prompt entry is exercised by the pty streams of C20/C07 when built). "
         "non-trivial = distinct lines containing a quote, an operator or an expansion")
 
-LINES = ["argv 'a b' \"c d\"", "argv 'x;y' ; argv z", "argv a && argv 'b && c' || argv d", "argv \"e && f\"", "argv '|' | cat", "argv a > out1 ; argv b >> out1",
+LINES = ["argv \"a\\\\\\\"b c\" && argv 'done'", "argv \"x\\\\\" y", "argv 'a b' \"c d\"", "argv 'x;y' ; argv z", "argv a && argv 'b && c' || argv d", "argv \"e && f\"", "argv '|' | cat", "argv a > out1 ; argv b >> out1",
          "argv \"$HOME\" '$HOME'", "argv {a,b}c", "argv ~", "argv a\\ b", "argv g\;h", "argv '#' # c", "argv \"a'b\" 'c\"d'", "argv '' \"\"", "false ; argv $?",
          "argv é 'ü ö'", "argv a   b", "argv '  sp  '", "argv \\$HOME", "argv \"x\\\"y\"", "argv 2>&1 > out2", "argv 'a' 'b' 'c' ; argv \"1\" \"2\""]
 
@@ -27,6 +27,15 @@ def generate(tier, rng):
             line = "prog " + c01.render_arg(style, a) + " 'x'"
             cases.append(Case("xpargs", [hx(line), ",".join(hx(x) for x in args_sets[2]) or "[]"], {"gen": "e", "l": line}))
     n = 5000 if tier == "quick" else 80000
+    # double-quoted words with backslashes and escaped quotes, single-quoted words with backslashes
+    dqa = ["a", "\\\\", '\\"', " ", "b", "\\", "'", "c d", "\\n", "$"]
+    for _ in range(n):
+        w1 = '"' + "".join(r.choice(dqa) for _ in range(1 + r.below(5))) + '"'
+        w2 = "'" + "".join(r.choice(["a", "\\", '"', " ", "\\\\"]) for _ in range(1 + r.below(4))) + "'"
+        line = "prog " + w1 + " " + w2 + r.choice(["", " && q 'z'", " ; q", " | q"])
+        cases.append(Case("xpargs", [hx(line), hx("s.sh")], {"gen": "dq", "l": line}))
+        cases.append(Case("tok", [hx(line)], {"gen": "dq", "l": line}))
+        cases.append(Case("wrap", [hx(r.choice(["", "'", '"', "`"])), hx(gens.rand_string(r, ["a", "\\", '"', "'", " ", "`"], 0, 6))], {"gen": "dq", "l": line}))
     for _ in range(n):
         line = gens.rand_line(r, 6) if r.chance(1, 2) else r.choice(LINES)
         args = r.choice(args_sets)
